@@ -300,7 +300,7 @@ func SkipRows(fn *ssa.Function) []string {
 	return out
 }
 
-var skipScope = []string{"haproxy", "haproxy/types", "haproxy/template", "haproxy/socket", "converters", "converters/ingress", "converters/gateway", "converters/utils", "converters/configmap", "converters/ingress/annotations", "converters/tracker", "acme", "controller/services", "controller/reconciler", "controller/legacy", "utils/workqueue", "utils", "common/net/ssl"}
+var skipScope = []string{"haproxy", "haproxy/types", "haproxy/template", "haproxy/socket", "converters", "converters/ingress", "converters/gateway", "converters/utils", "converters/configmap", "converters/ingress/annotations", "converters/tracker", "acme", "controller/services", "controller/reconciler", "controller/legacy", "utils/workqueue", "utils", "common/net/ssl", "controller/config", "controller/utils", "converters/ingress/utils", "converters/types", "converters/ingress/types", "common/ingress/controller", "types"}
 
 // SkipsAll renders the skip table of the current tree (used by `hapverif genskips`).
 func SkipsAll(env *core.Env) map[string][]string {
@@ -356,6 +356,7 @@ var skipGroups = []skipGroup{
 	{"skips-annotations", []string{"C18", "C19", "C16", "C09", "C15", "C03", "C11", "C02", "C07", "C01", "C17"}, []string{"converters/ingress/annotations"}, "the annotation updater"},
 	{"skips-acme", []string{"C17"}, []string{"acme"}, "the acme signer and client"},
 	{"skips-cache", []string{"C08", "C09", "C15", "C01", "C12", "C17", "C10", "C13"}, []string{"controller/services", "controller/legacy", "common/net/ssl"}, "the cache facades and the services of both runtimes"},
+	{"skips-config", []string{"C08", "C09", "C13", "C19", "C12", "C17", "C03", "C02", "C11"}, []string{"controller/config", "controller/utils", "common/ingress/controller", "converters/types", "converters/ingress/types", "converters/ingress/utils", "types"}, "the command-line options and their translation into the options of the converters, the cache and the instance"},
 	{"skips-events", []string{"C14"}, []string{"controller/reconciler"}, "the watchers and the reconciler"},
 	{"skips-queue", []string{"C13", "C12"}, []string{"utils/workqueue", "utils"}, "the work queue and its rate limiters"},
 }
